@@ -69,7 +69,7 @@ for c in unclaimed:
 
 m = {
     "version": 1,
-    "setup_cmd": "cd sim && CARGO_NET_OFFLINE=true cargo build --release --offline",
+    "setup_cmd": "cd sim && CARGO_NET_OFFLINE=true cargo build --release --offline && CARGO_NET_OFFLINE=true cargo build --release --offline --manifest-path send_proof/Cargo.toml --target-dir target/send_proof && CARGO_NET_OFFLINE=true CARGO_PROFILE_RELEASE_OVERFLOW_CHECKS=true CARGO_PROFILE_RELEASE_DEBUG_ASSERTIONS=true cargo build --release --offline --manifest-path /repo/Cargo.toml --bin muxide --target-dir target/repo-bin",
     "hooks": {
         "guard": "muxide_verif",
         "enable": "no hooks in /repo are needed: every seam is reachable from outside (generic sink, public API, real threads, libc symbol override inside the harness binary, child process); the guard name is reserved and unused",
